@@ -1,5 +1,253 @@
 package main
 
+import (
+	"encoding/json"
+	"fmt"
+	"os"
+	"os/exec"
+	"path/filepath"
+	"sort"
+	"strings"
+	"sync"
+
+	"golang.org/x/tools/go/callgraph"
+	"golang.org/x/tools/go/callgraph/cha"
+	"golang.org/x/tools/go/ssa"
+)
+
+type seedMeta struct {
+	ID         string   `json:"id"`
+	Properties []string `json:"properties"`
+	Expect     string   `json:"expect"` // "violation" or "silent"
+	Needs      string   `json:"needs"`
+	Summary    string   `json:"summary"`
+}
+
+// thoroughSeeds is the armedness self-test of the thorough tier: every kept
+// seeded mutant of this property (/verif/seeded/<id>/patch.diff) is applied to
+// a scratch copy of /repo's CURRENT working tree and the property's own check
+// is run on the copy (in a child process, evidence and replay files redirected
+// to the scratch area). A mutant that breaks the property must be reported, a
+// behaviour-preserving rewrite must leave the verdict unchanged. Nothing here
+// runs plenc code. Plus the CHA cross-check of the analysed closures.
 func thoroughSeeds(c *Ctx, info *propInfo, repo string) map[string]any {
-	return map[string]any{}
+	out := map[string]any{}
+	vd := verifDir()
+	dirs, _ := filepath.Glob(filepath.Join(vd, "seeded", "*", "meta.json"))
+	sort.Strings(dirs)
+	type res struct {
+		ID     string `json:"id"`
+		Expect string `json:"expect"`
+		Status string `json:"status"` // fired / silent / stale / error
+		OK     bool   `json:"as_expected"`
+		Rules  string `json:"rules,omitempty"`
+	}
+	var seeds []seedMeta
+	var sdirs []string
+	for _, mf := range dirs {
+		b, err := os.ReadFile(mf)
+		if err != nil {
+			continue
+		}
+		var m seedMeta
+		if json.Unmarshal(b, &m) != nil {
+			continue
+		}
+		for _, p := range m.Properties {
+			if p == c.Prop {
+				seeds = append(seeds, m)
+				sdirs = append(sdirs, filepath.Dir(mf))
+			}
+		}
+	}
+	exe, _ := os.Executable()
+	results := make([]res, len(seeds))
+	var wg sync.WaitGroup
+	sem := make(chan struct{}, 8)
+	for i := range seeds {
+		wg.Add(1)
+		go func(i int) {
+			defer wg.Done()
+			sem <- struct{}{}
+			defer func() { <-sem }()
+			m := seeds[i]
+			r := res{ID: m.ID, Expect: m.Expect}
+			scratch, err := os.MkdirTemp("", "plencheck-seed-")
+			if err != nil {
+				r.Status = "error"
+				results[i] = r
+				return
+			}
+			defer os.RemoveAll(scratch)
+			rcopy := filepath.Join(scratch, "repo")
+			vcopy := filepath.Join(scratch, "verif")
+			os.MkdirAll(vcopy, 0o755)
+			if b, err := exec.Command("rsync", "-a", "--exclude", ".git", repo+"/", rcopy+"/").CombinedOutput(); err != nil {
+				r.Status = "error: " + string(b)
+				results[i] = r
+				return
+			}
+			if kf, err := os.ReadFile(filepath.Join(vd, "KNOWN_FINDINGS.txt")); err == nil {
+				os.WriteFile(filepath.Join(vcopy, "KNOWN_FINDINGS.txt"), kf, 0o644)
+			}
+			ap := exec.Command("git", "apply", "--whitespace=nowarn", filepath.Join(sdirs[i], "patch.diff"))
+			ap.Dir = rcopy
+			if b, err := ap.CombinedOutput(); err != nil {
+				r.Status = "stale"
+				_ = b
+				r.OK = true
+				results[i] = r
+				return
+			}
+			cmd := exec.Command(exe, "-property", c.Prop, "-tier", "quick", "-repo", rcopy)
+			cmd.Env = append(os.Environ(), "VERIF_DIR="+vcopy, "VERIF_TIER=quick")
+			b, _ := cmd.CombinedOutput()
+			o := string(b)
+			var rules []string
+			for _, ln := range strings.Split(o, "\n") {
+				if strings.HasPrefix(ln, "finding: rule=") {
+					rules = append(rules, strings.TrimPrefix(strings.Fields(ln)[1], "rule="))
+				}
+			}
+			if strings.Contains(o, "VIOLATION property="+c.Prop) {
+				r.Status = "fired"
+				r.Rules = strings.Join(uniq(rules), ",")
+			} else if strings.Contains(o, c.Prop+" quick:") {
+				r.Status = "silent"
+			} else {
+				r.Status = "error"
+			}
+			r.OK = (m.Expect == "violation" && r.Status == "fired") || (m.Expect == "silent" && r.Status == "silent")
+			results[i] = r
+		}(i)
+	}
+	wg.Wait()
+	live, fired, stale, falseAlarms, missed := 0, 0, 0, 0, 0
+	for _, r := range results {
+		switch {
+		case r.Status == "stale":
+			stale++
+		default:
+			live++
+		}
+		if r.Status == "fired" && r.Expect == "violation" {
+			fired++
+		}
+		if !r.OK && r.Expect == "violation" {
+			missed++
+			fmt.Printf("SELFTEST-MISS property=%s seed=%s status=%s (the check no longer reports a change known to break the property)\n", c.Prop, r.ID, r.Status)
+		}
+		if !r.OK && r.Expect == "silent" {
+			falseAlarms++
+			fmt.Printf("SELFTEST-FALSE-ALARM property=%s seed=%s (the check reports a behaviour-preserving rewrite)\n", c.Prop, r.ID)
+		}
+	}
+	out["seeds"] = results
+	out["seeds_live"] = live
+	out["seeds_stale"] = stale
+	out["seeds_fired"] = fired
+	out["seeds_missed"] = missed
+	out["seeds_false_alarms"] = falseAlarms
+	out["selftest_rule"] = "each kept mutant (seeded/<id>/patch.diff) is applied to a scratch copy of /repo's current tree and this property's quick check is run on the copy; 'violation' seeds must be reported, 'silent' (behaviour-preserving) seeds must not"
+	c.Note("thorough: %d seeds live, %d fired, %d stale, %d missed, %d false alarms", live, fired, stale, missed, falseAlarms)
+
+	// CHA cross-check: every module function CHA makes reachable from the
+	// property's entry points must be in the analysed closure.
+	if miss := chaCrossCheck(c.P); miss != nil {
+		out["cha_crosscheck"] = miss
+		for name, v := range miss {
+			if m, ok := v.(map[string]any); ok {
+				if ms, ok := m["missing_from_analysis"].([]string); ok && len(ms) > 0 {
+					c.Findings = append(c.Findings, Finding{Property: c.Prop, Rule: "internal", Func: "-", Key: "internal|closure-incomplete|" + name,
+						Pos: "-", Msg: fmt.Sprintf("class-hierarchy analysis reaches module functions that the %s closure does not contain: %v (the enumeration of analysed functions is incomplete: the check is broken, not plenc)", name, ms)})
+				}
+			}
+		}
+	}
+	return out
+}
+
+func uniq(xs []string) []string {
+	seen := map[string]bool{}
+	var out []string
+	for _, x := range xs {
+		if !seen[x] {
+			seen[x] = true
+			out = append(out, x)
+		}
+	}
+	sort.Strings(out)
+	return out
+}
+
+// chaCrossCheck compares the decode and encode closures with class-hierarchy
+// reachability computed by x/tools (an independent enumeration).
+func chaCrossCheck(p *Prog) map[string]any {
+	cg := cha.CallGraph(p.SSA)
+	reach := func(roots []*ssa.Function, stop func(*ssa.Function) bool) map[string]bool {
+		seen := map[*ssa.Function]bool{}
+		out := map[string]bool{}
+		var work []*ssa.Function
+		for _, r := range roots {
+			work = append(work, r)
+		}
+		for len(work) > 0 {
+			f := work[len(work)-1]
+			work = work[:len(work)-1]
+			if f == nil || seen[f] {
+				continue
+			}
+			seen[f] = true
+			of := origin(f)
+			if pk := pkgOf(of); pk == nil || !inModule(pk) {
+				continue
+			}
+			if stop != nil && stop(of) {
+				continue
+			}
+			if of.Synthetic == "" || of.Parent() != nil {
+				out[ssaFuncName(of)] = true
+			}
+			n := cg.Nodes[f]
+			if n == nil {
+				continue
+			}
+			for _, e := range n.Out {
+				work = append(work, e.Callee.Func)
+			}
+		}
+		return out
+	}
+	_ = callgraph.Node{}
+	res := map[string]any{}
+	for name, pair := range map[string][2][]*ssa.Function{
+		"decode": {p.decodeRoots(), p.decodeClosure()},
+		"encode": {p.encodeRoots(), p.encodeClosure()},
+	} {
+		// CHA over instantiated roots: include instances of generic roots
+		var roots []*ssa.Function
+		rootSet := map[*ssa.Function]bool{}
+		for _, r := range pair[0] {
+			rootSet[r] = true
+		}
+		for f := range cg.Nodes {
+			if f != nil && rootSet[origin(f)] {
+				roots = append(roots, f)
+			}
+		}
+		r := reach(roots, isBuildFunc)
+		mine := map[string]bool{}
+		for _, f := range pair[1] {
+			mine[ssaFuncName(f)] = true
+		}
+		var missing []string
+		for n := range r {
+			if !mine[n] {
+				missing = append(missing, n)
+			}
+		}
+		sort.Strings(missing)
+		res[name] = map[string]any{"cha_reachable": len(r), "analysed": len(mine), "missing_from_analysis": missing}
+	}
+	return res
 }
